@@ -1,7 +1,7 @@
 # Author: Frantisek Krenzelok
 """Pure-Python RSA implementation."""
 from ecdsa.der import encode_sequence, encode_integer,  \
-    remove_sequence, remove_integer
+    remove_sequence, remove_integer, UnexpectedDER
 
 from .cryptomath import getRandomNumber, getRandomPrime, isPrime,    \
     powMod, numBits, bytesToNumber, invMod,   \
@@ -153,12 +153,18 @@ class Python_DSAKey(DSAKey):
         # get r, s keys
         if not signature:
             return False
-        body, rest = remove_sequence(signature)
-        if rest:
-            return False
-        r, rest = remove_integer(body)
-        s, rest = remove_integer(rest)
-        if rest:
+        # a signature that is not a DER encoded pair of integers is
+        # an invalid signature, not an error
+        try:
+            body, rest = remove_sequence(signature)
+            if rest:
+                return False
+            r, rest = remove_integer(body)
+            s, rest = remove_integer(rest)
+            if rest:
+                return False
+        # https://github.com/warner/python-ecdsa/issues/114
+        except (UnexpectedDER, IndexError, AssertionError):
             return False
 
         if gmpyLoaded or GMPY2_LOADED:
